@@ -63,7 +63,7 @@ void violating_write(const LPrt& p, unsigned kind, uint64_t a, Stats& st) {
 	case 0: art.imageMetas[ii].paletteIndex = uint16_t(art.palettes.size()); what = "palette index == palette count"; break;
 	case 1: art.imageMetas[ii].scanLineByteWidth += 4; what = "wrong scan line"; break;
 	case 2: art.imageMetas[ii].width = 0xFFFFFFFEu; art.imageMetas[ii].scanLineByteWidth = 0; what = "width 0xFFFFFFFE with scan line 0"; break;
-	default: { if (art.animations.empty()) art.animations.resize(1); if (art.animations[0].frames.empty()) { Animation::Frame f{}; art.animations[0].frames.push_back(f); } auto& f = art.animations[0].frames[0]; f.layers.resize(f.layers.size() + 1 + a % 2); what = "layer list longer than the frame's count"; break; }
+	default: { if (art.animations.empty()) art.animations.resize(1); if (art.animations[0].frames.empty()) { Animation::Frame f{}; art.animations[0].frames.push_back(f); } auto& f = art.animations[0].frames[0]; f.layers.resize(f.layers.size() + ((a & 4) ? 128u << (a % 3) : 1 + a % 2)); what = "layer list longer than the frame's count"; break; }
 	}
 	Stream::DynamicMemoryWriter w;
 	Out o = guarded([&] { art.Write(w); });
@@ -106,6 +106,7 @@ void run_sweep(Stats& st) {
 		valid_case(p, st);
 		for (unsigned kind = 0; kind < 6; ++kind) violating_read(p, kind, np * 7 + ni, st);
 		for (unsigned kind = 0; kind < 4; ++kind) violating_write(p, kind, na, st);
+		for (uint64_t a : {uint64_t(4), uint64_t(5), uint64_t(6)}) violating_write(p, 3, a, st);   // list longer by 128, 256, 512
 	}
 	st.exhaustive = true;
 }
